@@ -72,6 +72,15 @@ class Scratch:
         subprocess.run(['rsync', '-a', '--exclude', 'target', '--exclude', '.git', '--exclude', 'pcap',
                         '--exclude', '*.png', '--exclude', '*.svg', '--exclude', 'benches', '--exclude', 'examples',
                         self.repo.rstrip('/') + '/', self.dir + '/'], check=True)
+        # cargo hashes path packages relative to the workspace root, so every scratch copy maps to the
+        # same cached units and freshness is decided by mtimes alone: give all workspace sources a
+        # fresh mtime so that the workspace crates are always rebuilt from THIS copy (a stale artifact
+        # from an earlier, different copy must never be reused); registry dependencies stay cached
+        now = time.time()
+        for root, _dirs, files in os.walk(self.dir):
+            for fn in files:
+                if fn.endswith(('.rs', '.toml', '.fp')):
+                    os.utime(os.path.join(root, fn), (now, now))
         os.makedirs(os.path.join(self.dir, '.cargo'), exist_ok=True)
         with open(os.path.join(self.dir, '.cargo', 'config.toml'), 'w') as f:
             f.write('[net]\noffline = true\n')
@@ -308,15 +317,18 @@ def playback(scratch, unit, harness, log_dir):
     tn = re.search(r'fn (kani_concrete_playback_\w+)', test_src)
     if not tn or not harness.full_name:
         return res
-    # append the test into the harness module of the scratch copy
+    # append the test into the harness module of the scratch copy (restored afterwards)
+    saved = None
     for a in unit.appends:
         p2 = os.path.join(scratch.dir, a['file'])
         s = open(p2).read()
         modname = a.get('modname', 'vx_' + re.sub(r'\W', '_', os.path.splitext(a['module'])[0]))
         if f'::{modname}::' in '::' + harness.full_name:
             k = s.rfind('}')
-            s = s[:k] + '\n' + test_src + '\n}\n'
-            open(p2, 'w').write(s)
+            saved = (p2, s)
+            # only the test function itself: Kani's doc comment may span lines and break the syntax
+            body = test_src[test_src.index('#[test]'):]
+            open(p2, 'w').write(s[:k] + '\n' + body + '\n}\n')
             break
     # the native replay is compiled by plain rustc (cargo test): use the real tracing crate there
     ct = os.path.join(scratch.dir, 'Cargo.toml')
@@ -344,4 +356,6 @@ def playback(scratch, unit, harness, log_dir):
     except subprocess.TimeoutExpired:
         res['native'] = 'native replay timed out'
     open(ct, 'w').write(t)  # restore the no-op tracing patch for later Kani runs in this scratch copy
+    if saved:
+        open(saved[0], 'w').write(saved[1])
     return res
